@@ -6,3 +6,8 @@ pub mod types;
 
 #[cfg(feature = "server")]
 pub use brc20_prog_database::Brc20ProgDatabase;
+
+#[cfg(feature = "verif")]
+pub use cached_database::{BlockCachedDatabase, BlockHistoryCache, BlockHistoryCacheData};
+#[cfg(feature = "verif")]
+pub use database::BlockDatabase;
